@@ -1,4 +1,6 @@
-(* Correspondence evaluator for selector histories (C13, C14). *)
+(* Correspondence evaluator for selector histories (C13, C14): the model's [step] is replayed over the
+   history observed on the implementation.  Oracle values that cannot be observed (the start position a
+   round-robin rebuild draws, the draw of random.Select) are existentially quantified over their range. *)
 From Coq Require Import List NArith ZArith Bool Arith.
 From TarsV Require Import Base.Hex Select.Selectors.
 Import ListNotations.
@@ -6,7 +8,7 @@ Open Scope N_scope.
 
 Definition mk (h s : hexs) (w t : Z) : ep := {| host := unhex h; skey := unhex s; wgt := w; wty := t |}.
 
-Inductive op :=
+Inductive hop :=
 | ORefresh (l : list ep)
 | OAdd (e : ep) (ok : bool)
 | ORemove (e : ep) (ok : bool)
@@ -18,63 +20,65 @@ Definition points_of (t : ptable) (h : list N) (k : nat) : list N :=
   match find (fun x => bytes_eqb (unhex (fst (fst x))) h && Nat.eqb (snd (fst x)) k) t with
   | Some x => snd x | None => [] end.
 
-Definition obs_eqb (o : option hexs) (m : option (list N)) : bool :=
-  match o, m with
-  | None, None => true
-  | Some a, Some b => bytes_eqb (unhex a) b
+Definition obs_eqb (o : option hexs) (r : res) : bool :=
+  match o, r with
+  | None, RErr => true
+  | Some a, RSel e => bytes_eqb (unhex a) (host e)
   | _, _ => false
   end.
-
-Fixpoint forall2b {A B} (f : A -> B -> bool) (a : list A) (b : list B) : bool :=
-  match a, b with
-  | [], [] => true | x :: a', y :: b' => f x y && forall2b f a' b' | _, _ => false end.
 
 Fixpoint nseq (start : N) (len : nat) : list N :=
   match len with O => [] | S k => start :: nseq (start + 1) k end.
 
-Definition check_run (k : kind) (s : sel) (r : ring) (codes : list N) (obs : list (option hexs)) : bool :=
-  match k with
-  | RoundRobin =>
-      match eps s with
-      | [] => forallb (fun o => match o with None => true | Some _ => false end) obs
-      | _ => existsb (fun p => forall2b (fun i o => obs_eqb o (option_map host (rr_select s p i)))
-                                        (nseq 1 (length obs)) obs)
-                     (nseq 0 (length (cycle s)))
-      end
-  | Random =>
-      forallb (fun o => match o, eps s with
-                        | None, [] => true
-                        | Some h, _ :: _ => has_host (unhex h) (eps s)
-                        | _, _ => false end) obs
-  | ModHash => forall2b (fun c o => obs_eqb o (option_map host (modhash_select s c))) codes obs
-  | ConHash => forall2b (fun c o => obs_eqb o (ring_lookup r c)) codes obs
-  end.
+Section eval.
+  Variable t : ptable.
+  Variable k : kind.
+  Variable weighted : bool.
 
-Fixpoint check_ops (k : kind) (weighted : bool) (t : ptable) (l : list ep) (r : ring) (ops : list op) : bool :=
-  match ops with
-  | [] => true
-  | ORefresh new :: rest =>
-      let l' := refresh_eps new in
-      check_ops k weighted t l' (fold_left (ring_add (points_of t) weighted) l' []) rest
-  | OAdd e ok :: rest =>
-      let '(l', ok') := add_ep l e in
-      Bool.eqb ok ok' && check_ops k weighted t l' (if ok' then ring_add (points_of t) weighted r e else r) rest
-  | ORemove e ok :: rest =>
-      let '(l', ok') := remove_ep l e in
-      Bool.eqb ok ok' && check_ops k weighted t l' (if ok' then ring_remove (points_of t) weighted r e else r) rest
-  | OSelRun codes obs :: rest =>
-      check_run k (rebuild weighted l) r codes obs && check_ops k weighted t l r rest
-  end.
+  (* deterministic replay of a selection run from a given state *)
+  Fixpoint replay (s : Selectors.sel) (codes : list N) (obs : list (option hexs)) : bool :=
+    match codes, obs with
+    | [], [] => true
+    | c :: cs, o :: os => let '(s', r) := select k s c 0 in obs_eqb o r && replay s' cs os
+    | _, _ => false
+    end.
 
-Definition hist_case := (kind * bool * ptable * list op)%type.
+  Definition set_cursor (s : Selectors.sel) (p : N) : Selectors.sel :=
+    {| eps := eps s; cache := cache s; pos := p; wpos := p; hring := hring s |}.
+
+  Definition check_run (s : Selectors.sel) (codes : list N) (obs : list (option hexs)) : bool :=
+    match k with
+    | RoundRobin => existsb (fun p => replay (set_cursor s p) codes obs) (nseq 0 (Nat.max 1 (cyc_len s)))
+    | Random => Nat.eqb (length codes) (length obs) &&
+                forallb (fun o => existsb (fun rnd => obs_eqb o (snd (select k s 0 rnd))) (nseq 0 (Nat.max 1 (cyc_len s)))) obs
+    | _ => replay s codes obs
+    end.
+
+  Fixpoint check_ops (s : Selectors.sel) (ops : list hop) : bool :=
+    match ops with
+    | [] => true
+    | ORefresh l :: rest =>
+        match step (points_of t) k weighted s (Refresh l 0 0) with (s', RDone) => check_ops s' rest | _ => false end
+    | OAdd e ok :: rest =>
+        match step (points_of t) k weighted s (Add e 0 0) with (s', RAdded ok') => Bool.eqb ok ok' && check_ops s' rest | _ => false end
+    | ORemove e ok :: rest =>
+        match step (points_of t) k weighted s (Remove e 0 0) with (s', RRemoved ok') => Bool.eqb ok ok' && check_ops s' rest | _ => false end
+    | OSelRun codes obs :: rest => check_run s codes obs && check_ops s rest
+    end.
+End eval.
+
+Definition hist_case := (kind * bool * ptable * list hop)%type.
 Definition hist_check (c : hist_case) : bool :=
-  let '(k, weighted, t, ops) := c in check_ops k weighted t [] [] ops.
+  let '(k, weighted, t, ops) := c in check_ops t k weighted sel0 ops.
 
 (* BuildStaticWeightList alone: endpoints and the observed index list *)
 Definition bswl_case := (list ep * list N)%type.
 Definition bswl_check (c : bswl_case) : bool :=
   let '(l, obs) := c in
-  list_eqb N.eqb (map N.of_nat (build_static_weight_list l)) obs.
+  match build_static_weight_list l with
+  | BOk c _ => list_eqb N.eqb (map N.of_nat c) obs
+  | BPanic _ => false
+  end.
 
 Definition sel_case := (hist_case + bswl_case)%type.
 Definition sel_check (c : sel_case) : bool := match c with inl h => hist_check h | inr b => bswl_check b end.
